@@ -2,6 +2,7 @@ import FeatModel.Model.Assembly
 import FeatModel.Lemmas.C16_scatter
 import FeatModel.Lemmas.C16_assembly
 import FeatModel.Lemmas.C16_identities
+import FeatModel.Lemmas.C16_banded
 /-!
 # C16 — property theorems (statements only; proofs live in Lemmas/C16_*.lean)
 
@@ -189,11 +190,26 @@ theorem C16.vec_scatter_sound {α : Type} [CommRing α] (d : Array α) (loc : Na
       d.getD n 0 + alpha * (map.zipIdx.map fun (p : Nat × Nat) => if p.1 = n then loc p.2 else 0).sum :=
   C16L.vecScatter_spec d loc alpha map.zipIdx n (fun ix _ h => hmap ix (C16L.fst_mem_of_mem_zipIdx _ _ _ _ h))
 
-/-- **banded scatter on a rectangular matrix (candidate F12 of DESIGN §5, at model level)**: a 1×2 banded matrix with the
-single offset 1 stores the entry `(0,1)`; the column test `off+ix+1 < 2*rows` rejects it, so the scatter of that very
-entry reads a never written `_col_ptr` slot. -/
-theorem C16.banded_rect_unsound_witness :
-    (match bandedScatterAxpy 1 [1] ⟨#[none, none], #[(0 : Int)]⟩ (fun _ _ => 1) [0] [1] 1 with
-     | .error e => e == "UNINIT"
-     | .ok _ => false) = true := by
-  decide
+/-- **banded_scatter_sound** (square *and* rectangular matrices; the defect F12 of DESIGN §5 is fixed by a38ae1004):
+if every coupling `(rowMap i, colMap j)` lies on a stored band inside the `rows × cols` matrix, whatever the `_col_ptr`
+scratch array holds from earlier calls, `SparseMatrixBanded::ScatterAxpy::operator()` succeeds and the dense meaning of
+the data array becomes `⟦A⟧ + α · P_rowᵀ · loc · P_col` on every row of the matrix. -/
+theorem C16.banded_scatter_sound {α : Type} [CommRing α] (rows cols : Nat) (offsets : List Nat) (st : ScatterSt α)
+    (c : CellCall α) (hd : st.data.size = offsets.length * rows) (hcp : st.colPtr.size = cols)
+    (hcov : bandedCovered rows cols offsets c.rowMap c.colMap = true) :
+    ∃ st', bandedScatterAxpy rows cols offsets st c.loc c.rowMap c.colMap c.alpha = some st' ∧
+      st'.data.size = st.data.size ∧ st'.colPtr.size = cols ∧
+      ∀ (x : Nat → α) (r : Nat), r < rows →
+        bandedApply rows cols offsets st'.data x r = bandedApply rows cols offsets st.data x r + c.alpha * c.contrib x r :=
+  C16L.bandedScatter_spec rows cols offsets st c hd hcp hcov
+
+/-- the inputs that failed with the old column test `off+ix+1 < 2*rows`, on a fresh scatter object:
+2×3 matrix with offsets {1,3}: the entry (0,2) (data index 2) now receives its value; 1×2 matrix with offset 1;
+and a 3×1 matrix (rows > cols) where the old test wrote past the `_col_ptr` array. -/
+example :
+    bandedCovered 2 3 [1, 3] [0] [2] = true ∧
+    (bandedScatterAxpy 2 3 [1, 3] ⟨#[none, none, none], #[(0 : Int), 0, 0, 0]⟩ (fun _ _ => 5) [0] [2] 1).map
+      (·.data.toList) = some [0, 0, 5, 0] ∧
+    (bandedScatterAxpy 1 2 [1] ⟨#[none, none], #[(0 : Int)]⟩ (fun _ _ => 1) [0] [1] 1).map (·.data.toList) = some [1] ∧
+    (bandedScatterAxpy 3 1 [1, 2] ⟨#[none], #[(0 : Int), 0, 0, 0, 0, 0]⟩ (fun i _ => if i = 0 then 1 else 2) [0, 1] [0] 1).map
+      (·.data.toList) = some [0, 2, 0, 1, 0, 0] := by decide
